@@ -357,6 +357,68 @@ impl GenParams {
                 p_unknown: 0.08,
                 ..b
             },
+            "manycands" => GenParams {
+                // packages with 18-45 candidates, almost always a favored one, version sets
+                // that keep most candidates: sorted candidate lists long enough for
+                // size-dependent behaviour of the ordering code (C20, C07)
+                pkgs: (2, 3),
+                cands: (18, 45),
+                p_keep: 0.85,
+                p_allow_empty: 0.0,
+                reqs: (0, 1),
+                p_union: 0.2,
+                p_cons: 0.1,
+                p_favored: 0.9,
+                p_lock: 0.0,
+                p_missing: 0.0,
+                root_reqs: (1, 2),
+                ..b
+            },
+            "multilock" => GenParams {
+                // several locked / excluded packages clashing with requirements at once:
+                // problems that are unsolvable for more than one independent reason, where
+                // the order in which clauses were added decides what is reported (C06)
+                pkgs: (4, 7),
+                cands: (2, 3),
+                p_lock: 0.6,
+                p_excl: 0.25,
+                p_keep: 0.5,
+                reqs: (1, 3),
+                root_reqs: (2, 4),
+                p_root_cons: 0.4,
+                p_missing: 0.0,
+                ..b
+            },
+            "selfreq" => GenParams {
+                // solvables that require / constrain their own package, under partial hints
+                // and with enough conflicts that candidates are abandoned and revisited
+                pkgs: (3, 5),
+                cands: (2, 3),
+                p_self: 0.35,
+                p_cons: 0.4,
+                p_keep: 0.6,
+                reqs: (1, 2),
+                root_reqs: (1, 3),
+                root_full: true,
+                hint: HintGen::Random,
+                ..b
+            },
+            "large" => GenParams {
+                // 25-40 packages: variable, clause and name ids cross the 128 / 256 boundaries
+                // of the chunked tables inside the solver (watch map, activity table, arenas)
+                pkgs: (25, 40),
+                cands: (2, 5),
+                p_keep: 0.72,
+                reqs: (1, 3),
+                p_union: 0.15,
+                p_cons: 0.15,
+                root_reqs: (2, 4),
+                p_missing: 0.0,
+                p_unknown: 0.01,
+                p_lock: 0.03,
+                p_excl: 0.03,
+                ..b
+            },
             "tiny" => GenParams {
                 pkgs: (2, 3),
                 cands: (1, 2),
